@@ -340,6 +340,7 @@ func cmdCheck(args []string) int {
 	var results []hres
 	var problems []string
 	crossRuns, crossDisagree := 0, 0
+	crossIncomplete := []string{}
 	progs := map[string]*exec.Program{}
 	progOf := map[string]*exec.Program{}
 	harnesses := cfg.Harnesses
@@ -433,6 +434,11 @@ func cmdCheck(args []string) int {
 			crossRuns++
 			if err != nil {
 				problems = append(problems, h.Name+": cross-solver run: "+err.Error())
+			} else if st2.QUnknown > 0 || len(st2.Inconclusive) > 0 {
+				// the second solver left queries undecided (timeouts): the re-decision is incomplete,
+				// which is not a disagreement; the first solver's verdict stands and the gap is recorded
+				crossIncomplete = append(crossIncomplete, fmt.Sprintf("%s: re-decision by %s incomplete: %d unknown answers, %d of %d paths completed (first: %s)",
+					h.Name, other, st2.QUnknown, st2.PathsOK, st2.Paths, clip(strings.Join(st2.Inconclusive, "; "), 200)))
 			} else if st2.Paths != st.Paths || st2.PathsOK != st.PathsOK || labelSet(st2) != labelSet(st) {
 				crossDisagree++
 				problems = append(problems, fmt.Sprintf("%s: cross-solver disagreement: %s paths=%d ok=%d violations=%s vs %s paths=%d ok=%d violations=%s",
@@ -705,6 +711,7 @@ func cmdCheck(args []string) int {
 		"differential":                  diffInfo,
 		"cross_solver_runs":             crossRuns,
 		"cross_solver_disagreements":    crossDisagree,
+		"cross_solver_incomplete":       crossIncomplete,
 		"load_s":                        loadS,
 		"exhaustive":                    len(problems) == 0,
 		"rule":                          "states = completed symbolic paths (each decided for all values by the solver); transitions = decision edges; obligations = assertion queries PC∧¬assert posed, discharged = those answered unsat",
